@@ -1,6 +1,7 @@
 package main
 
 import (
+	"sync/atomic"
 	"sync"
 	"errors"
 	"fmt"
@@ -141,7 +142,13 @@ func (d *dumpDsts) arr(depth int) *simdjson.Array {
 
 var dumpDstPool = sync.Pool{New: func() interface{} { return &dumpDsts{} }}
 
+var dumpCalls uint64
+
 func dumpValue(b *strings.Builder, i *simdjson.Iter, depth int) error {
+	// one dump in four passes nil destinations (the allocating path of Object()/Array())
+	if atomic.AddUint64(&dumpCalls, 1)%4 == 0 {
+		return dumpValueD(b, i, depth, nil)
+	}
 	ds := dumpDstPool.Get().(*dumpDsts)
 	defer dumpDstPool.Put(ds)
 	return dumpValueD(b, i, depth, ds)
